@@ -88,4 +88,39 @@ def run():
         good = needle in out
         ok &= good
         print(('ok   ' if good else 'FAIL ') + f'negative control {module}/{cfg}: TLC reports "{needle}"')
+    ok &= sa_controls()
     return 0 if ok else 1
+
+
+def sa_controls():
+    """binding of SegnoSA.tla: a genuine sequence is accepted, a flipped module / exchanged symbols / a dropped symbol are rejected"""
+    import copy
+    from . import props_sym, symobs
+    from .symobs import call
+    q = {'mode': 'none', 'version': 1, 'count': -1, 'error': '-', 'eci': False, 'boost': True}
+    m = {'bytes': [55] * 45, 'enc': 'l1'}
+    _, _, syms = symobs.execute(call('make_sequence', bytes(m['bytes']), version=1))
+    base = {'msg': m, 'q': q, 'status': 'ok', 'syms': [{'matrix': s['matrix']} for s in syms]}
+    flipped = copy.deepcopy(base)
+    flipped['syms'][1]['matrix'][20][20] ^= 1
+    swapped = copy.deepcopy(base)
+    swapped['syms'].reverse()
+    dropped = copy.deepcopy(base)
+    dropped['syms'].pop()
+    refused = dict(base, status='ValueError', syms=[])
+    ctl = [dict(base, _name='genuine sequence', _expect=set()), dict(flipped, _name='one module flipped', _expect={('SPEC', 'matrix_differs')}),
+           dict(swapped, _name='symbols exchanged', _expect={('C08', 'headers')}), dict(dropped, _name='last symbol dropped', _expect={('C08', 'symbol_count')}),
+           dict(refused, _name='refusal of an acceptable request', _expect={('C14', 'refused_although_accepted_by_spec')})]
+
+    class R:
+        pid = 'selftest'
+    verdicts, _ = props_sym.validate_all_branches(R, ctl, module='Trace_SegnoSA', tag='selftest_sa')
+    ok = True
+    for o in ctl:
+        branches = verdicts[o['tid']]
+        accepted = any(not b['fails'] for b in branches)
+        got = set() if accepted else {tuple(x) for b in branches for x in b['fails']}
+        good = (o['_expect'] <= got) if o['_expect'] else accepted
+        ok &= good
+        print(('ok   ' if good else 'FAIL ') + f"sequence conformance: {o['_name']}: expected {sorted(o['_expect'])} got {sorted(got)}")
+    return ok
